@@ -22,6 +22,7 @@ class Result:
         self.axes = {}                # axis name -> Counter(value)
         self.violations = []          # unknown violations kept (dicts)
         self.n_violations = 0         # unknown violations counted
+        self.vkinds = Counter()       # unknown violations by kind
         self.known = Counter()        # known-finding id -> hits
         self.samples = []
         self.caps = []
@@ -50,7 +51,9 @@ class Result:
             self.known[fid] += 1
             return False
         self.n_violations += 1
-        if len(self.violations) < MAX_KEEP:
+        self.vkinds[kind] += 1
+        # keep the first of every kind even when the shard's list is full
+        if len(self.violations) < MAX_KEEP or self.vkinds[kind] <= 2:
             self.violations.append(v)
         return True
 
@@ -63,10 +66,13 @@ class Result:
         self.outcomes.update(other.outcomes)
         for k, c in other.axes.items():
             self.axes.setdefault(k, Counter()).update(c)
-        room = 200 - len(self.violations)
-        if room > 0:
-            self.violations.extend(other.violations[:room])
+        have = Counter(v['kind'] for v in self.violations)
+        for v in other.violations:
+            if len(self.violations) < 200 or have[v['kind']] < 3:
+                self.violations.append(v)
+                have[v['kind']] += 1
         self.n_violations += other.n_violations
+        self.vkinds.update(other.vkinds)
         self.known.update(other.known)
         for s in other.samples:
             self.sample(s)
